@@ -1,5 +1,6 @@
 """C16 — Integrity reports flag every corruption and nothing else."""
 import re
+from collections import deque
 from .. import cfg, idioms
 from ..flow import FlowGraph
 from ..idioms import cname
@@ -189,6 +190,142 @@ def r4_failures_emitted(ctx):
             r.violation(k, cfg.loc(f.main), "%s is never invoked: nothing is checked" % callee, work=1)
 
 
+def _bool_paths_reach(body, starts, cut_blocks):
+    """Blocks reachable from `starts` without entering `cut_blocks`, following a
+    bool switch only along the edge its operand is known to take.  Known values
+    come from constant assignments, copies and negations of known locals, and
+    from the edges already taken (finite domain: local -> True/False)."""
+    cut_blocks = set(cut_blocks)
+    seen = set()
+    out = set()
+    dq = deque()
+    for s0 in starts:
+        dq.append((s0, frozenset()))
+    steps = 0
+    while dq:
+        bi, envf = dq.popleft()
+        if bi in cut_blocks or (bi, envf) in seen:
+            continue
+        seen.add((bi, envf))
+        out.add(bi)
+        steps += 1
+        if steps > 20000:
+            # give up on precision, not on soundness: fall back to plain reachability
+            return out | cfg.reach(body, [bi], cut_blocks=cut_blocks)
+        env = dict(envf)
+        alias = {}      # temp -> (source local, negated) set in this block
+        blk = body.blocks[bi]
+        for st in blk["s"]:
+            d = st.get("d")
+            if d is None:
+                continue
+            dl = cfg.place_local(d) if isinstance(d, str) else None
+            if dl is None or "." in str(d):
+                continue
+            val = None
+            k = st.get("k")
+            if k == "use":
+                c = cfg.op_const(st["ops"][0])
+                if c is not None and "b" in c:
+                    val = bool(c["b"])
+                else:
+                    sl = cfg.op_local(st["ops"][0])
+                    if sl is not None:
+                        alias[dl] = (sl, False)
+                        if sl in env:
+                            val = env[sl]
+            elif k == "un" and st.get("op") == "Not":
+                sl = cfg.op_local(st["ops"][0])
+                if sl is not None:
+                    alias[dl] = (sl, True)
+                    if sl in env:
+                        val = not env[sl]
+            if val is None:
+                env.pop(dl, None)
+            else:
+                env[dl] = val
+        t = blk.get("term")
+        if not t:
+            continue
+        if t["k"] == "call" and t.get("dest") is not None:
+            dl = cfg.place_local(t["dest"]) if isinstance(t["dest"], str) else None
+            if dl is not None:
+                env.pop(dl, None)
+        if t["k"] == "switch" and t.get("dty") == "bool":
+            l = cfg.op_local(t["d"])
+            false_t, true_t = None, t["otherwise"]
+            for v, bb in t["vals"]:
+                if v == 0:
+                    false_t = bb
+                else:
+                    true_t = bb
+            if false_t is None:
+                false_t = t["otherwise"]
+            for val, tgt in ((True, true_t), (False, false_t)):
+                if l is not None and l in env and env[l] != val:
+                    continue
+                e2 = dict(env)
+                if l is not None:
+                    e2[l] = val
+                    if l in alias:
+                        src, neg = alias[l]
+                        e2[src] = (not val) if neg else val
+                dq.append((tgt, frozenset(e2.items())))
+            continue
+        for nx in cfg.succs(body)[bi]:
+            dq.append((nx, frozenset(env.items())))
+    return out
+
+
+def r8_existence_gate(ctx):
+    """On the file-system backend a folder is checked further only when BOTH of
+    its files exist: from the point where the folder's file names are taken,
+    no Ok exit is reachable that avoids an existence test without passing the
+    MissingFolder report."""
+    ws = ctx.ws
+    r = ctx.rule("C16-R8", "a folder with a missing vault or event log file is reported, whichever of the two is missing",
+                 floor=2, kind="K2 must-pass-through")
+    fns = ws.find_fns(r"^sos_integrity::account_integrity::check_folder$")
+    if not fns:
+        r.anchor_missing("sos_integrity::account_integrity::check_folder")
+        return
+    f = fns[0]
+    found = False
+    for b in f.bodies:
+        live = cfg.live_blocks(b)
+        calls = list(idioms.real_calls(b, live))
+        names = [i for i, t in calls if cname(t) in ("vault_path", "event_log_path")]
+        tests = [i for i, t in calls if cname(t) in ("try_exists", "exists")]
+        if not names or not tests:
+            continue
+        found = True
+        fail = set()
+        for j in live:
+            for st in b.blocks[j]["s"]:
+                if st.get("k") == "agg" and (st.get("adt") or "").endswith("IntegrityFailure") and st.get("variant") == "MissingFolder":
+                    fail.add(j)
+        start = []
+        for i in names:
+            sst, _ = idioms.success_start(b, i)
+            start.extend(sst)
+        oks = {e.block for e in cfg.exits(b) if e.kind != "err"}
+        if len(tests) < len(names):
+            r.violation(f.root + "|tests-each-file", cfg.loc(b, names[0]),
+                        "%d file names are taken but only %d existence tests are made" % (len(names), len(tests)), work=len(live))
+        for n, e in enumerate(tests, 1):
+            k = "%s|existence-test#%d-not-bypassed" % (f.root, n)
+            rs = _bool_paths_reach(b, start, set([e]) | fail)
+            bad = [x for x in oks if x in rs]
+            if bad:
+                r.violation(k, cfg.loc(b, e),
+                            "the folder check can go on (or end without a report) on a path that never makes this existence test and never reports MissingFolder: a folder whose file is missing is not reported",
+                            work=len(rs), witness=cfg.path_lines(b, cfg.find_path(b, start, bad, cut_blocks=set([e]) | fail)))
+            else:
+                r.ok(k, cfg.loc(b, e), "every continuing path makes the test or reports MissingFolder", work=len(rs))
+    if not found:
+        r.anchor_missing("vault_path/event_log_path and try_exists calls in check_folder")
+
+
 LOSSY = re.compile(r"mpsc::(bounded::)?Sender::<.*>::(try_send|try_reserve|try_reserve_owned|send_timeout)$")
 SENDS = re.compile(r"mpsc::(bounded::)?Sender::<.*>::(send|blocking_send)$")
 SHARED = re.compile(r"(sync::mutex::Mutex::<.*>::(lock|try_lock)|sync::rwlock::RwLock::<.*>::write|atomic::Atomic\w+::(fetch_add|load))$")
@@ -329,7 +466,7 @@ def run(ctx):
         "every content accessor of SecretRow that Vault::commit_hash covers (meta and secret), the file branch the row "
         "value range; (R2) each check recomputes SHA-256; (R3) the mismatch edge of each hash comparison leads to the "
         "failure value, the failure is constructed only behind that edge and never behind the equal edge; (R4) missing "
-        "and error cases construct failures; (R5) no lossy channel operation on the way to the comparison and the shutdown signal is gated by shared completion state. Decides that the right bytes are compared and no mismatch is swallowed; "
+        "and error cases construct failures; (R5) no lossy channel operation on the way to the comparison and the shutdown signal is gated by shared completion state; (R7) a paged read can continue past its first page; (R8) the folder check goes on only when both of the folder's files were tested for existence, decided path-sensitively over bool locals. Decides that the right bytes are compared and no mismatch is swallowed; "
         "per-byte completeness is a runtime layout fact and not decided.")
     ctx.trust("sha2 / rs_merkle Sha256")
     r1_db_row_hash_covers_both_blobs(ctx)
@@ -337,6 +474,7 @@ def run(ctx):
     r4_failures_emitted(ctx)
     r5_nothing_skipped(ctx)
     r7_paging_can_continue(ctx)
+    r8_existence_gate(ctx)
     # shared with C01-R7: "and nothing else" — a row whose content is rewritten by an upsert
     # that forgets to rewrite its stored commit_hash is reported as corrupted although nobody touched it
     from . import c01
